@@ -1062,24 +1062,6 @@ mut("C08", "shell-closes-stale-end", "stale close(pipes[idx-1].1)|shell",
             }
             if let Some(redirect_from) = &cmd.redirect_from {
                 if redirect_from.0 == "<<<" {"""))
-ref("stale-close-after-here-string", ["C04", "C08", "C02"],
-    "the child's close of pipes[idx-1].1 moved behind the here-string installation (repairs the open finding)",
-    (C, """                libs::close(fds_prev.0);
-                libs::close(fds_prev.1);
-""", """                libs::close(fds_prev.0);
-"""),
-    (C, """                    libs::dup2(fds.0, 0);
-                    libs::close(fds.0);
-                }
-            }
-""", """                    libs::dup2(fds.0, 0);
-                    libs::close(fds.0);
-                }
-            }
-            if idx_cmd > 0 {
-                libs::close(pipes[idx_cmd - 1].1);
-            }
-"""))
 
 mut("C20", "word-start-quote-toggle", "R20-6|completers::escaped_word_start|quote-state",
     "any quote character toggles the quoted state of the word-start scanner",
@@ -1816,3 +1798,13 @@ mut("C04", "builtin-precheck-only-warns", "R04-4|builtins::utils::_get_std_fds|e
     "the dispatcher reports an unopenable target but runs the builtin anyway",
     (C, """                println_stderr!("cicada: {}: {}", &item.2, e);
                 return Some(CommandResult::from_status(0, 1));""", """                println_stderr!("cicada: {}: {}", &item.2, e);"""))
+
+for _p, _r in (("C08", "R08-5"), ("C04", "R04-7")):
+    mut(_p, "child-closes-released-pipe-end", "%s|core::run_single_program|stale close" % _r,
+        "the child closes pipes[idx-1].1 again: the number may be the here-string pipe's by then",
+        (C, """                libs::dup2(fds_prev.0, 0);
+                libs::close(fds_prev.0);
+""", """                libs::dup2(fds_prev.0, 0);
+                libs::close(fds_prev.0);
+                libs::close(fds_prev.1);
+"""))
